@@ -24,7 +24,8 @@ type Program struct {
 var bodyPkgPrefixes = []string{"tkestack.io/kvass/"}
 var bodyPkgExact = map[string]bool{
 	"sort": true,
-	"github.com/prometheus/prometheus/pkg/labels": true,
+	"github.com/prometheus/prometheus/pkg/labels":   true,
+	"github.com/prometheus/prometheus/model/labels": true,
 }
 
 // overlayFor maps /verif/harness/<dir>/<file>.go to /repo/pkg/<dir>/zz_verif_<file>.go
